@@ -26,7 +26,7 @@ Not decided: bit-stream encodings (CAS/WAV).
 import ast
 import struct
 
-from ..source import norm, short
+from ..source import norm, short, class_methods
 from ..flow import own_nodes
 from .. import mutate as mu
 
@@ -190,6 +190,20 @@ def check(ctx, rep):
                        'the payload can be empty (a zero-length BSAVE image): the record has a leader and a trailer but no block, and skipping it fails with Device I/O error',
                        ctx.where(c))
     rep.floor('record.never-empty', nrec, 4, 'records written')
+    # the set of "one multi-block record" file types is written out in several methods: flush, close and fill
+    # must agree on it, or a file is written in one record geometry and read (or finished) in the other
+    sets = []
+    for fn in class_methods(ctx.cls(CAS + ':CassetteStream')).values():
+        for c in own_nodes(fn):
+            if isinstance(c, ast.Compare) and len(c.ops) == 1 and isinstance(c.ops[0], (ast.In, ast.NotIn)) and norm(c.left) == 'self.filetype' \
+                    and isinstance(c.comparators[0], ast.Tuple):
+                v = ctx.fold(c.comparators[0])
+                sets.append((fn.name, tuple(sorted(v)) if isinstance(v, tuple) else None, c))
+    ref = [v for n, v, c in sets if n == '_fill_record_buffer']
+    for n, v, c in sets:
+        rep.ob('binary.type-set-agrees', '%s: the single-record file types are %s' % (n, b''.join(ref[0]).decode() if ref and ref[0] else '?'),
+               bool(ref) and v == ref[0], '%s tests %r but the reader uses %r' % (n, v, ref[0] if ref else None), ctx.where(c))
+    rep.floor('binary.type-set-agrees', len(sets), 3, 'type-set tests')
     # search
     se = ctx.fn(CAS + ':CASDevice._search')
     ts = norm(se)
@@ -255,6 +269,8 @@ def variants(ctx):
         Va('crc-little-endian-writer', 'break', CAS, in_fn('CassetteStream._write_block', _swap_crc), expect='block.crc'),
         Va('binary-read-one-block', 'break', CAS,
            in_fn('CassetteStream._fill_record_buffer', lambda fn: mu.replace_expr(fn, mu.text_is('self._read_record(self.length)'), 'self._read_record(256)')), expect='binary'),
+        Va('flush-forgets-protected-type', 'break', CAS,
+           in_fn('CassetteStream._flush_record_buffer', lambda fn: mu.replace_expr(fn, mu.text_is("(b'M', b'B', b'P')"), "(b'M', b'B')")), expect='binary.type-set'),
         Va('search-compares-uncut-name', 'break', CAS,
            in_fn('CASDevice._search', lambda fn: mu.replace_expr(fn, mu.text_is('trunk_req[:8].rstrip()'), 'trunk_req.rstrip()')), expect='search.match'),
         Va('search-ignores-type', 'break', CAS,
